@@ -4,7 +4,7 @@
    function alone (every intermediate real value inside the domain of the operation applied to it).
    fused multiply-add and iterator sums / products are, by the theorems of C08, equal to the operator compositions they abbreviate, so a program
    using them is a program of this syntax.  Only `exact` proofs here. *)
-From ND Require Import Tactics C02_proofs C01_towers C01_faa C07_proofs C09_proofs Prog Agree C04_inst C04_nested C03_proofs C03_second.
+From ND Require Import Tactics C02_proofs C01_towers C01_faa C07_proofs C09_proofs Prog Agree C04_inst C04_nested C03_proofs C03_second C03_third.
 Local Open Scope R_scope.
 
 (* the first-order type: the eps part is the derivative (Coquelicot is_derive) of the real function the program computes, along the input curves *)
@@ -29,6 +29,19 @@ Theorem C03_second_derivative_program : forall p x, okR (x :: nil) p ->
   Dual2_f_re d = eval (T:=R) (x :: nil) p /\
   exists f' : R -> R, locally x (fun t => is_derive (fun s => eval (T:=R) (s :: nil) p) t (f' t)) /\ Dual2_f_v1 d = f' x /\ is_derive f' x (Dual2_f_v2 d).
 Proof. exact second_derivative_program. Qed.
+
+(* third order: Rep3 t0 v d  :=  re d = v t0 /\ exists v' v'', (v' = derivative of v near t0) /\ (v'' = derivative of v' near t0) /\
+   v1 d = v' t0 /\ v2 d = v'' t0 /\ is_derive v'' t0 (v3 d): the v3 part of the evaluation over Dual3 is the THIRD derivative of the composed real function *)
+Theorem C03_third_order : forall (t0 : R) (p : prog) (envV : list (R -> R)) (envD : list (Dual3 R)),
+  Forall2 (Rep3 t0) envV envD -> okR (at_t envV t0) p ->
+  Rep3 t0 (fun t => eval (T:=R) (at_t envV t) p) (eval envD p).
+Proof. exact third_order. Qed.
+Theorem C03_third_derivative_program : forall p x, okR (x :: nil) p ->
+  let d := eval (mkDual3 x 1 0 0 :: nil) p in
+  Dual3_f_re d = eval (T:=R) (x :: nil) p /\
+  exists f' f'' : R -> R, locally x (fun t => is_derive (fun s => eval (T:=R) (s :: nil) p) t (f' t)) /\ locally x (fun t => is_derive f' t (f'' t)) /\
+    Dual3_f_v1 d = f' x /\ Dual3_f_v2 d = f'' x /\ is_derive f'' x (Dual3_f_v3 d).
+Proof. exact third_derivative_program. Qed.
 
 (* every type, every first-order direction l of it: RepX says x carries value and derivative in direction l of the curve v at t0
      RepX l t0 v x  :=  wf x /\ part x [] = v t0 /\ is_derive v t0 (part x [l])
@@ -82,7 +95,7 @@ Example C03_example :
   okR (at_t ((fun t => t) :: (fun _ => 2) :: nil) 1) p /\ Forall2 (Rep1 1) ((fun t => t) :: (fun _ => 2) :: nil) (mkDual 1 1 :: mkDual 2 0 :: nil).
 Proof. exact example_ok. Qed.
 
-Definition C03_bundle := (C03_first_order, C03_first_derivative_program, C03_second_order, C03_second_derivative_program, C03_directional_Dual, C03_directional_Dual2, C03_directional_Dual3,
+Definition C03_bundle := (C03_first_order, C03_first_derivative_program, C03_second_order, C03_second_derivative_program, C03_third_order, C03_third_derivative_program, C03_directional_Dual, C03_directional_Dual2, C03_directional_Dual3,
   C03_directional_HyperDual, C03_directional_HyperHyperDual, C03_directional_DualVec, C03_directional_Dual2Vec, C03_directional_HyperDualVec,
   C03_directional_DD, C03_directional_DDD).
 Print Assumptions C03_bundle.
